@@ -631,6 +631,7 @@ class ExprMixin:
         results: List[Any] = []
         opaque = [False]
         all_conds: List[V] = []
+        first_iter: List[V] = []
 
         def rec(gi: int) -> None:
             if gi == len(gens):
@@ -641,6 +642,8 @@ class ExprMixin:
                 return
             g = gens[gi]
             it = self.eval(g.iter, inner)
+            if gi == 0:
+                first_iter.append(it)
             concrete = isinstance(it, (ListV, TupleV, SetV, DictV)) and it.concrete() or \
                 (isinstance(it, Const) and isinstance(it.value, (str, tuple, bytes)))
             if concrete:
@@ -672,8 +675,8 @@ class ExprMixin:
         kind = {"list": "list", "set": "set", "dict": "dict", "gen": "generator"}[make]
         extra = (TupleV(all_conds),) if all_conds else ()
         if make == "dict":
-            return Term("dictcomp", (elt[0], elt[1], self._iter_key(gens, inner)) + extra, kind=kind, node=node)
-        return Term(make + "comp", (elt, self._iter_key(gens, inner)) + extra, kind=kind, node=node)
+            return Term("dictcomp", (elt[0], elt[1], Term("src", (first_iter[0],))) + extra, kind=kind, node=node)
+        return Term(make + "comp", (elt, Term("src", (first_iter[0],))) + extra, kind=kind, node=node)
 
     def _iter_key(self, gens: Any, inner: Frame) -> V:
         try:
